@@ -250,7 +250,13 @@ impl Prop for C15 {
             5 => IoSrc::Seed(SeedSpec::Canned("minimal.mp4".into())),
             6 => IoSrc::Seed(SeedSpec::CannedFrag),
             7 | 8 => IoSrc::Seed(SeedSpec::Frag { seed: r.below(1 << 16) }),
-            9 => IoSrc::Seed(SeedSpec::Meta { seed: r.below(1 << 16) }),
+            9 => {
+                if r.chance(1, 2) {
+                    IoSrc::Seed(SeedSpec::Meta { seed: r.below(1 << 16) })
+                } else {
+                    IoSrc::Seed(SeedSpec::Grammar { seed: r.below(1 << 30) })
+                }
+            }
             10 => {
                 if r.chance(1, 2) {
                     IoSrc::Seed(SeedSpec::MuxReloc { seed: r.below(1 << 16) })
